@@ -88,7 +88,7 @@ def sevenzip(folders):
         for i in range(len(coders) - 1):
             f += _num7(i) + _num7(i + 1)
         fdefs += f
-        sizes += b"".join(_num7(declared) for _ in coders)
+        sizes += b"".join(_num7(d) for d in (declared if isinstance(declared, (list, tuple)) else [declared] * len(coders)))
     unpack_info = b"\x07\x0b" + _num7(n) + b"\x00" + fdefs + b"\x0c" + sizes + b"\x00"
     streams_info = b"\x04" + pack_info + unpack_info + b"\x08\x00" + b"\x00"
     names = b"\x00" + b"".join(name.encode("utf-16-le") + b"\x00\x00" for name, _, _, _ in folders)
@@ -181,20 +181,26 @@ def sevenzip_declared_sizes(tail=48 * 1024 * 1024, declared=128, skip=()):
         chains.append((f"BCJ+{cname}", [SZ_BCJ, cid]))
         chains.append((f"COPY+{cname}", [SZ_COPY, cid]))
         chains.append((f"BCJ+COPY+{cname}", [SZ_BCJ, SZ_COPY, cid]))
-    for label, chain in chains:
+    # in a chain, also with the outer coders declaring the full expansion: only the decoder's own (last) size is the small one
+    chains = [(l, c, None) for (l, c) in chains] + [(l, c, "outer coders declare the full expansion") for (l, c) in chains if len(c) > 1]
+    readable = {}
+    for label, chain, sizing in chains:
         if label in skip:
             continue
         last = chain[-1]
 
-        def arch(streams):
+        def arch(streams, sizing=sizing):
             props, raw = streams[last]
-            return sevenzip([("a.txt", raw, [(c, props if c == last else None) for c in chain], declared)])
-        try:
-            ok = list(ae.read_archive(io.BytesIO(arch(honest)), "h.7z"))
-            if len(ok) != 1 or "declared part" not in ok[0].get_full_text():
-                continue          # this chain is not read by the reader: nothing to measure
-        except Exception:  # noqa
-            continue
+            sizes = declared if sizing is None else [declared + tail] * (len(chain) - 1) + [declared]
+            return sevenzip([("a.txt", raw, [(c, props if c == last else None) for c in chain], sizes)])
+        if label not in readable:
+            try:
+                ok = list(ae.read_archive(io.BytesIO(arch(honest, None)), "h.7z"))
+                readable[label] = len(ok) == 1 and "declared part" in ok[0].get_full_text()
+            except Exception:  # noqa
+                readable[label] = False
+        if not readable[label]:
+            continue              # this chain is not read by the reader: nothing to measure
         data = arch(bomb)
         tracemalloc.start()
         tracemalloc.reset_peak()
@@ -208,7 +214,7 @@ def sevenzip_declared_sizes(tail=48 * 1024 * 1024, declared=128, skip=()):
         tracemalloc.stop()
         if peak > max(64 * len(data), 16 * 1024 * 1024):
             return {"reproduced": True, "target": "util/sevenzip.py::SevenZipReader._decompress_folder", "chain": label,
-                    "inputs": {"archive": f"7z, one folder with coders {label}, member declared as {declared} bytes, packed stream of {len(data)} bytes "
+                    "inputs": {"archive": f"7z, one folder with coders {label}{' (' + sizing + ')' if sizing else ''}, member declared as {declared} bytes, packed stream of {len(data)} bytes "
                                           f"that expands to {declared + tail} bytes", "archive_bytes": len(data)},
                     "expected": "decompression stops at the declared size (peak additional memory within a fixed multiple of the archive size); a refusal is fine",
                     "observed": f"peak additional memory {peak} bytes = {peak // len(data)}x the archive ({len(res)} results, error={type(err).__name__ if err else None})"}
